@@ -788,7 +788,9 @@ func (fr *frame) step(st *PState, ins ssa.Instruction) {
 		if si == nil {
 			st.env[ins] = st.specialField(x, xt, ins.Field)
 		} else {
-			st.env[ins] = ex.Sorts.Field(x, si, ins.Field)
+			fv := ex.Sorts.Field(x, si, ins.Field)
+			fr.loadFacts(st, fv, ins.Type())
+			st.env[ins] = fv
 		}
 	case *ssa.IndexAddr:
 		base := fr.val(st, ins.X)
@@ -914,6 +916,7 @@ func (fr *frame) unop(st *PState, ins *ssa.UnOp) Val {
 			v := st.LoadPtr(p)
 			if t, ok := v.(T); ok {
 				t.Go = ins.Type()
+				fr.loadFacts(st, t, ins.Type())
 				return t
 			}
 			return v
@@ -1150,4 +1153,18 @@ func (fr *frame) typeAssert(st *PState, ins *ssa.TypeAssert) Val {
 	}
 	fr.panicUnless(st, okc, "failed type assertion")
 	return res
+}
+
+// loadFacts assumes the range of a fixed-width integer (or the non-nilness of a string) that was read from
+// memory: Go's type system guarantees it for every stored value.
+func (fr *frame) loadFacts(st *PState, v T, t types.Type) {
+	if _, _, ok := intRange(t); ok && v.Sort == SInt {
+		if len(v.S) < 400 {
+			st.TypeFacts(v, t, 0)
+		}
+		return
+	}
+	if b, ok := t.Underlying().(*types.Basic); ok && b.Info()&types.IsString != 0 && len(v.S) < 400 {
+		st.Assume(Not(Eq(v, bnilT)))
+	}
 }
